@@ -8,7 +8,7 @@ package sharding
 //@ requires numShards >= 1
 //@ requires (numShards-1) * (4294967295/numShards + 1) <= 4294967295
 //@ requires baseId >= 0 && baseId < 4611686018427387904
-//@ loop 0 invariant i <= numShards && len(shards) == i
+//@ loop 0 invariant i <= numShards && len(shards) == i && shards != nil && fresh(shards)
 //@ loop 0 invariant forall j int :: 0 <= j && j < i ==> shards[j].Min == j*(4294967295/numShards + 1) && shards[j].Id == baseId + j && shards[j].Min <= shards[j].Max
 //@ loop 0 invariant forall j int :: 0 <= j && j < i && j < numShards-1 ==> shards[j].Max == (j+1)*(4294967295/numShards + 1) - 1
 //@ loop 0 invariant forall j int :: 0 <= j && j < i && j == numShards-1 ==> shards[j].Max == 4294967295
@@ -17,3 +17,6 @@ package sharding
 //@ ensures result[0].Min == 0 && result[numShards-1].Max == 4294967295
 //@ ensures forall j int :: 0 <= j && j < numShards ==> result[j].Min <= result[j].Max && result[j].Id == baseId + j
 //@ ensures forall j int :: 0 <= j && j < numShards-1 ==> result[j+1].Min == result[j].Max + 1
+//@ ensures result == nil || fresh(result)
+//@ loop 0 modifies fresh
+//@ modifies nothing
